@@ -38,11 +38,20 @@ def is_hex(s):
     return type(s) is str and HEXRE.fullmatch(s) is not None
 
 
+AUTH_KEYS = ["m/44'/0'/0'/0/0", "m/44'/1'/0'/0/0"]
+UNAUTH_KEYS = ["m/44'/137'/0'/0/0", "m/44'/137'/1'/0/0", "m/44'/1'/1'/0/0", "m/44'/1'/2'/0/0"]
+
+
 def key_ok(k):
     if type(k) is not str:
         return False
+    if k in AUTH_KEYS or k in UNAUTH_KEYS:
+        return True
     if re.fullmatch(r"m((/[0-9]+'?){5})", k):
-        return all(int(e.rstrip("'")) < 2 ** 31 for e in k[2:].split("/"))
+        # a well-formed five-element path that is not one of the six "only accepted" paths:
+        # the docs say -103 is "invalid or unauthorized key ID" but not who refuses it (the
+        # manager may, or it may leave it to the device)
+        return AMB if all(int(e.rstrip("'")) < 2 ** 31 for e in k[2:].split("/")) else False
     # decimal digits outside ASCII: docs say nothing
     if re.fullmatch(r"m((/\d+'?){5})", k):
         return AMB
@@ -180,6 +189,27 @@ def allowed(req, mode):
         cmd = None
     if cmd in ("sign", "getPubKey"):
         flag(key_ok(req.get("keyId")), E["key"])
+    if cmd == "sign" and mode == "v5" and type(req.get("message")) is dict:
+        # the docs tie each message format to a set of keys; who enforces it is not said
+        k, m = req.get("keyId"), req["message"]
+        if ("hash" in m and k in AUTH_KEYS) or ("hash" not in m and k in UNAUTH_KEYS):
+            amb = True
+    # fields the docs do not mention (at the top level or inside auth): docs silent
+    documented = {"version": {"command", "version"},
+                  "sign": {"command", "version", "keyId", "message", "auth"},
+                  "getPubKey": {"command", "version", "keyId"},
+                  "advanceBlockchain": {"command", "version", "blocks", "brothers"},
+                  "resetAdvanceBlockchain": {"command", "version"},
+                  "blockchainState": {"command", "version"},
+                  "updateAncestorBlock": {"command", "version", "blocks"},
+                  "blockchainParameters": {"command", "version"},
+                  "signerHeartbeat": {"command", "version", "udValue"},
+                  "uiHeartbeat": {"command", "version", "udValue"}}
+    if cmd in documented and set(req) - documented[cmd]:
+        amb = True
+    if cmd == "sign" and type(req.get("auth")) is dict and \
+            set(req["auth"]) - {"receipt", "receipt_merkle_proof"}:
+        amb = True
     if cmd == "sign" and mode == "v1":
         flag(hexfield(req, "message", 32), E["msg"])
     if cmd == "sign" and mode == "v5":
